@@ -114,6 +114,9 @@ func c19Gen(r *gen.Rand, cp *c19Corpus, shared bool) c19Call {
 			if n := len(cp.bms[b].pos); fn == fOf && n >= 2 && r.Intn(2) == 0 {
 				call.m = int32(1 + r.Intn(n-1))
 			}
+			if fn == fOf {
+				call.c = int32(r.Intn(2)) // 1: the positions in shuffled order
+			}
 		case fGetw:
 			b := r.Intn(len(cp.bms))
 			w := c19JoinWidths[r.Intn(7)]
@@ -298,7 +301,11 @@ func c19Exec(cp *c19Corpus, sigs []*sigbits.SigBits, call c19Call, g *c19Guards)
 		return hI32(hI32(h, s), r)
 	case fOf:
 		b := &cp.bms[call.a]
-		return gen.Hash64(h, gen.HashWords(bitmap.Of(I(PI(b.pos)), int32(64*len(b.words)))))
+		src := b.pos
+		if call.c == 1 {
+			src = b.posShuf
+		}
+		return gen.Hash64(h, gen.HashWords(bitmap.Of(I(PI(src)), int32(64*len(b.words)))))
 	case fJoin:
 		return gen.Hash64(h, gen.HashWords(bitmap.Join(W(PW(cp.vals[call.a])), call.b)))
 	case fPathToIndex:
